@@ -3,6 +3,7 @@ package harness
 import (
 	"encoding/json"
 	"fmt"
+	"regexp"
 	"sort"
 	"strings"
 )
@@ -141,12 +142,22 @@ func (s *s1) checkC03(i int, out *TxnOutcome) {
 	if out.Before.Rows() > 0 {
 		e.Probes["checked_nonempty"]++
 	}
-	if ref.OpFailed || ref.CommitErr != "" {
+	if !ref.OpFailed && ref.CommitErr != "" {
+		e.Probes["c03_commit_rule_disagreement_left_to_C04_C06"]++
+		return
+	}
+	if ref.OpFailed {
 		why := ref.CommitErr
+		key := "commit:" + ref.CommitErr
 		if ref.OpFailed {
-			why = fmt.Sprintf("operation %d must fail (%s)", len(ref.Results)-1, ref.Results[len(ref.Results)-1].Err)
+			last := ref.Results[len(ref.Results)-1]
+			why = fmt.Sprintf("operation %d must fail (%s %s)", len(ref.Results)-1, last.Err, last.Detail)
+			key = last.Detail
+			if key == "" {
+				key = last.Kind + ":" + last.Err
+			}
 		}
-		e.Violate("C03.accepts-invalid", "transaction %d was accepted but RFC 7047 prescribes: %s\nops: %s\nreply: %s", i, why, shortOps(out.Ops), out.Call.Result)
+		e.ViolateK("C03.accepts-invalid", key, "transaction %d was accepted but RFC 7047 prescribes: %s\nops: %s\nreply: %s", i, why, shortOps(out.Ops), out.Call.Result)
 		return
 	}
 	if len(out.Res) != len(out.Ops) {
@@ -155,12 +166,20 @@ func (s *s1) checkC03(i int, out *TxnOutcome) {
 	}
 	for k, op := range out.Ops {
 		if msg := s.compareResult(op, out.Res[k], ref.Results[k]); msg != "" {
-			e.Violate("C03.result:"+fmt.Sprint(op["op"]), "transaction %d operation %d (%s): %s\nops: %s\nreply: %s", i, k, mustJSON(op), msg, shortOps(out.Ops), out.Call.Result)
+			key := condKey(e.Sch, op)
+			if strings.HasPrefix(msg, "select returned extra columns") {
+				key = "columns-ignored"
+			}
+			oracle := "C03.result:" + fmt.Sprint(op["op"])
+			if strings.HasPrefix(key, "cond:") && key != "cond:none" && key != "cond:scalar-only" {
+				oracle = "C03.selection" // which rows a condition on a set/map/optional column selects
+			}
+			e.ViolateK(oracle, key, "transaction %d operation %d (%s): %s\nops: %s\nreply: %s", i, k, mustJSON(op), msg, shortOps(out.Ops), out.Call.Result)
 			return
 		}
 	}
 	if d := DiffStates(ref.After, out.After, e.Sch.TableNames, nil); d != "" {
-		e.Violate("C03.contents", "transaction %d: database contents differ from the RFC 7047 model (model vs database):\n%s\nops: %s\nbefore:\n%s", i, d, shortOps(out.Ops), trimStr(out.Before.String(), 3000))
+		e.ViolateK("C03.contents", contentsKey(e.Sch, out.Ops, ref.After, out.After), "transaction %d: database contents differ from the RFC 7047 model (model vs database):\n%s\nops: %s\nbefore:\n%s", i, d, shortOps(out.Ops), trimStr(out.Before.String(), 3000))
 		return
 	}
 }
@@ -191,24 +210,56 @@ func (s *s1) compareResult(op Op, act ActRes, ref RefResult) string {
 	case "select":
 		t := e.Sch.Tables[op["table"].(string)]
 		var have, want []string
+		_, hasCols := op["columns"]
+		extra := false
+		byU := map[string]Row{}
 		for _, rj := range act.Rows {
 			r, u, err := RowFromWire(t, rj)
 			if err != nil {
 				return "undecodable select row: " + err.Error()
 			}
+			byU[u] = r
 			have = append(have, "uuid="+u+" "+r.String())
 		}
-		for _, r := range ref.Rows {
-			u := ""
-			if r.HasUUID {
-				u = r.UUID
-			}
-			want = append(want, "uuid="+u+" "+r.Row.String())
-		}
 		sort.Strings(have)
+		// a column left out of a returned row is read as holding its default
+		// (empty) value; rows are matched by content because _uuid may not
+		// have been asked for
+		canon := func(r Row, cols []string) string {
+			o := Row{}
+			for _, c := range cols {
+				if v, ok := r[c]; ok {
+					o[c] = v
+				} else {
+					o[c] = omittedValue(&t.Columns[c].Type)
+				}
+			}
+			return o.String()
+		}
+		var haveC, wantC []string
+		for _, r := range ref.Rows {
+			cols := SortedKeys(r.Row)
+			want = append(want, "uuid="+r.UUID+" "+r.Row.String())
+			wantC = append(wantC, canon(r.Row, cols))
+			if a, ok := byU[r.UUID]; ok {
+				haveC = append(haveC, canon(a, cols))
+				if hasCols && len(a) > len(cols) {
+					for c := range a {
+						if _, asked := r.Row[c]; !asked {
+							extra = true
+						}
+					}
+				}
+			}
+		}
 		sort.Strings(want)
-		if strings.Join(have, "\n") != strings.Join(want, "\n") {
+		sort.Strings(haveC)
+		sort.Strings(wantC)
+		if len(act.Rows) != len(ref.Rows) || strings.Join(haveC, "\n") != strings.Join(wantC, "\n") {
 			return fmt.Sprintf("select returned\n%s\nexpected\n%s", trimStr(strings.Join(have, "\n"), 1200), trimStr(strings.Join(want, "\n"), 1200))
+		}
+		if extra {
+			return fmt.Sprintf("select returned extra columns:\n%s\nexpected\n%s", trimStr(strings.Join(have, "\n"), 800), trimStr(strings.Join(want, "\n"), 800))
 		}
 	case "wait":
 		// success is an empty object
@@ -331,13 +382,18 @@ func (s *s1) checkC04(i int, out *TxnOutcome) {
 		if out.After.Rows() > 0 {
 			e.Probes["checked_nonempty"]++
 		}
+		if len(integrityProblems(e.Sch, out.Before)) > 0 || diffRefs(recomputeRefs(e.Sch, out.Before), out.RefsBef) != "" {
+			// the state was already broken before this transaction (a listed finding): nothing new can be learnt
+			e.Abort("database state already inconsistent before transaction (known finding earlier in this run)")
+			return
+		}
 		if ps := integrityProblems(e.Sch, out.After); len(ps) > 0 {
-			e.Violate("C04.integrity", "after committed transaction %d: %s\nops: %s\nbefore:\n%s", i, strings.Join(ps, "; "), shortOps(out.Ops), trimStr(out.Before.String(), 3000))
+			e.ViolateK("C04.integrity", integrityKey(e.Sch, ps[0]), "after committed transaction %d: %s\nops: %s\nbefore:\n%s", i, strings.Join(ps, "; "), shortOps(out.Ops), trimStr(out.Before.String(), 3000))
 			return
 		}
 		want := recomputeRefs(e.Sch, out.After)
 		if d := diffRefs(want, out.RefsAft); d != "" {
-			e.Violate("C04.ref-index-drift", "after committed transaction %d the maintained reference index differs from the references present in the rows (recomputed vs index):\n%s\nops: %s", i, d, shortOps(out.Ops))
+			e.ViolateK("C04.ref-index-drift", driftKey(e.Sch, want, out.RefsAft), "after committed transaction %d the maintained reference index differs from the references present in the rows (recomputed vs index):\n%s\nops: %s\nbefore:\n%s", i, d, shortOps(out.Ops), trimStr(out.Before.String(), 2500))
 			return
 		}
 	}
@@ -441,8 +497,12 @@ func (s *s1) checkC06(i int, out *TxnOutcome) {
 		if out.After.Rows() > 0 {
 			e.Probes["checked_nonempty"]++
 		}
+		if len(dupIndexTuples(e.Sch, out.Before)) > 0 {
+			e.Abort("duplicate index tuple already stored before this transaction (known finding earlier in this run)")
+			return
+		}
 		if d := dupIndexTuples(e.Sch, out.After); len(d) > 0 {
-			e.Violate("C06.duplicate-stored", "after committed transaction %d: %s\nops: %s\nbefore:\n%s", i, strings.Join(d, "; "), shortOps(out.Ops), trimStr(out.Before.String(), 3000))
+			e.ViolateK("C06.duplicate-stored", s.dupKey(out), "after committed transaction %d: %s\nops: %s\nbefore:\n%s", i, strings.Join(d, "; "), shortOps(out.Ops), trimStr(out.Before.String(), 3000))
 			return
 		}
 	}
@@ -462,8 +522,8 @@ func (s *s1) checkC06(i int, out *TxnOutcome) {
 	}
 	switch {
 	case ref.FinalDup && !out.Failed:
-		e.Violate("C06.accepts-duplicate", "transaction %d ends with a duplicate index tuple but was accepted\nops: %s", i, shortOps(out.Ops))
-	case ref.CommitErr == "" && out.Failed && errClass(out.CommitErr) == "constraint violation":
+		e.ViolateK("C06.accepts-duplicate", s.dupKey(out), "transaction %d ends with a duplicate index tuple but was accepted\nops: %s", i, shortOps(out.Ops))
+	case ref.CommitErr == "" && out.Failed && errClass(out.CommitErr) == "constraint violation" && strings.Contains(out.Res[len(out.Res)-1].Details, "index"):
 		e.Violate("C06.rejects-transient", "transaction %d was rejected with %q (%s) but its final state has no duplicate index tuple (transient duplicate: %v)\nops: %s\nbefore:\n%s", i, out.CommitErr, out.Res[len(out.Res)-1].Details, ref.TransientDup, shortOps(out.Ops), trimStr(out.Before.String(), 3000))
 	case ref.FinalDup && out.Failed && errClass(out.CommitErr) != "constraint violation":
 		e.Violate("C06.wrong-error", "transaction %d ends with a duplicate index tuple and was rejected with %q instead of a constraint violation", i, out.CommitErr)
@@ -503,7 +563,7 @@ func (s *s1) checkC07(i int, out *TxnOutcome, strict bool) {
 			continue // C02's concern
 		}
 		if len(exp) == 0 {
-			if len(ups) != 0 && DiffStates(out.Before, out.After, e.Sch.TableNames, nil) != "" && !strict && s.onlyEmptyModifies(o, ups) {
+			if len(ups) != 0 && DiffStates(out.Before, out.After, e.Sch.TableNames, nil) != "" && s.onlyEmptyModifies(o, ups) && !(strict && s.mentionsUnchangedRow(o, ups, out)) {
 				// the transaction changed something this monitor did not select and the
 				// frame carries nothing but empty modify entries: tolerated (DESIGN.md section 9)
 				e.Probes["c07_empty_modify_tolerated"]++
@@ -570,9 +630,14 @@ func (s *s1) checkC07(i int, out *TxnOutcome, strict bool) {
 				// tolerated only if it is an empty modify for a row whose monitored columns did not change
 				_, existed := pb[r.Table][r.UUID]
 				_, exists := pa[r.Table][r.UUID]
-				if kind == "modify" && existed && exists && len(r.Modify) == 0 && (v2 || rowsEqualOn(r.Old, r.New)) && !strict {
+				fullSame := out.Before[r.Table][r.UUID].String() == out.After[r.Table][r.UUID].String()
+				if kind == "modify" && existed && exists && len(r.Modify) == 0 && (v2 || rowsEqualOn(r.Old, r.New)) && !(strict && fullSame) {
 					e.Probes["c07_empty_modify_tolerated"]++
 					continue
+				}
+				if strict && fullSame {
+					e.ViolateK("C11.noop-reported", "empty-"+kind, "monitor %s was told about %s/%s (%s) although the row ends the transaction exactly as it began\nnotification: %s\nops: %s", o.spec.Owner, r.Table, r.UUID, kind, body, shortOps(out.Ops))
+					return
 				}
 				e.Violate("C07.unchanged-row", "monitor %s was told about %s/%s (%s) which did not change in a selected way\nnotification: %s\nops: %s", o.spec.Owner, r.Table, r.UUID, kind, body, shortOps(out.Ops))
 				return
@@ -725,6 +790,10 @@ func (s *s1) checkC15(i int, out *TxnOutcome) {
 	if ref.OpFailed || ref.CommitErr != "" {
 		return // C03/C04's concern
 	}
+	if ref.GCd > 0 || ref.Pruned > 0 {
+		e.Probes["c15_skipped_gc_or_prune"]++
+		return // garbage collection / pruning in the same transaction is C04's concern
+	}
 	// the uuid reported for each insert is the uuid the row is stored under
 	for k, op := range out.Ops {
 		if op["op"] != "insert" {
@@ -770,4 +839,260 @@ func (s *s1) onlyEmptyModifies(o *observer, ups []*RawNote) bool {
 		}
 	}
 	return true
+}
+
+// colKind names the position a reference is held in: scalar, optional, set,
+// map-key or map-value, plus its strength.
+func colKind(sch *Schema, table, column, kv string) string {
+	t := sch.Tables[table]
+	if t == nil || t.Columns[column] == nil {
+		return "?"
+	}
+	c := t.Columns[column]
+	b := c.Type.Key
+	pos := "set"
+	switch {
+	case c.Type.IsMap() && kv == "v":
+		pos, b = "map-value", c.Type.Val
+	case c.Type.IsMap():
+		pos = "map-key"
+	case c.Type.IsScalar():
+		pos = "scalar"
+	case c.Type.IsOptional():
+		pos = "optional"
+	}
+	st := "strong"
+	if b != nil && b.RefType == "weak" {
+		st = "weak"
+	}
+	return pos + ":" + st
+}
+
+var reIntegrity = regexp.MustCompile(`^(dangling strong reference|weak reference) (\w+)/[^.]+\.(\w+) ->`)
+
+func integrityKey(sch *Schema, problem string) string {
+	if m := reIntegrity.FindStringSubmatch(problem); m != nil {
+		t := sch.Tables[m[2]]
+		kv := "k"
+		if t != nil && t.Columns[m[3]] != nil && t.Columns[m[3]].Type.IsMap() && t.Columns[m[3]].Type.Key.RefTable == "" {
+			kv = "v"
+		}
+		what := "dangling"
+		if m[1] == "weak reference" {
+			what = "weak-dangling"
+		}
+		return what + ":" + colKind(sch, m[2], m[3], kv)
+	}
+	if strings.Contains(problem, "not strongly referenced") {
+		return "unreferenced-row"
+	}
+	return "other"
+}
+
+var reSpec = regexp.MustCompile(`(\w+)\.(\w+)\((k|v)\)->\w+:[0-9a-f-]+\[([^\]]*)\]`)
+
+// driftKey classifies the first difference between the recomputed references
+// (want) and the maintained index (got): "stale" = in the index only.
+func driftKey(sch *Schema, want, got map[string]string) string {
+	for _, k := range SortedKeys(got) {
+		if want[k] == got[k] {
+			continue
+		}
+		parse := func(s string) map[string]string {
+			o := map[string]string{}
+			for _, m := range reSpec.FindAllStringSubmatch(s, -1) {
+				o[m[1]+"."+m[2]+"("+m[3]+")"] = m[4]
+			}
+			return o
+		}
+		w, g := parse(want[k]), parse(got[k])
+		for _, sp := range SortedKeys(g) {
+			if w[sp] != g[sp] {
+				m := reSpec.FindStringSubmatch(sp + "->X:0[]")
+				kind := "stale"
+				if _, ok := w[sp]; ok {
+					kind = "differs"
+				}
+				if m != nil {
+					return kind + ":" + colKind(sch, m[1], m[2], m[3])
+				}
+				return kind
+			}
+		}
+		for _, sp := range SortedKeys(w) {
+			if _, ok := g[sp]; !ok {
+				m := reSpec.FindStringSubmatch(sp + "->X:0[]")
+				if m != nil {
+					return "missing:" + colKind(sch, m[1], m[2], m[3])
+				}
+				return "missing"
+			}
+		}
+	}
+	return "other"
+}
+
+// dupKey says how a duplicate got past the commit-time check: "masked" when a
+// row of the duplicate pair also collides, on another index of the table, with
+// a row the transaction deleted or rewrote (the implementation looks at the
+// first colliding index only); "plain" otherwise.
+func (s *s1) dupKey(out *TxnOutcome) string {
+	sch := s.e.Sch
+	for _, tn := range sch.TableNames {
+		t := sch.Tables[tn]
+		if len(t.Indexes) < 2 {
+			continue
+		}
+		tuple := func(r Row, idx []string) string {
+			var parts []string
+			for _, c := range idx {
+				parts = append(parts, r[c].String())
+			}
+			return strings.Join(parts, "|")
+		}
+		for u, r := range out.After[tn] {
+			for _, idx := range t.Indexes {
+				for bu, br := range out.Before[tn] {
+					ar, still := out.After[tn][bu]
+					if bu == u || (still && tuple(ar, idx) == tuple(br, idx)) {
+						continue
+					}
+					if tuple(br, idx) == tuple(r, idx) {
+						return "masked-by-collision-with-deleted-or-rewritten-row-on-another-index"
+					}
+				}
+			}
+		}
+	}
+	return "plain"
+}
+
+// whereShape summarises the conditions of an operation: function / column
+// kind / whether the argument is empty.
+func whereShape(sch *Schema, op Op) string {
+	t := sch.Tables[fmt.Sprint(op["table"])]
+	conds, _ := op["where"].([]any)
+	if t == nil || len(conds) == 0 {
+		return "where[]"
+	}
+	var parts []string
+	for _, cj := range conds {
+		c, ok := cj.([]any)
+		if !ok || len(c) != 3 {
+			continue
+		}
+		cn, _ := c[0].(string)
+		kind := "uuid"
+		if col := t.Columns[cn]; col != nil {
+			kind = valueKind(&col.Type)
+		}
+		empty := ""
+		if s := string(mustJSON(c[2])); s == `["set",[]]` || s == `["map",[]]` {
+			empty = "/empty"
+		}
+		parts = append(parts, fmt.Sprintf("%v/%s%s", c[1], kind, empty))
+	}
+	sort.Strings(parts)
+	return "where[" + strings.Join(parts, ",") + "]"
+}
+
+func valueKind(ct *ColType) string {
+	switch {
+	case ct.IsMap():
+		return "map"
+	case ct.IsScalar():
+		return "scalar"
+	case ct.IsOptional():
+		return "optional"
+	}
+	return "set"
+}
+
+// contentsKey attributes a difference in stored contents to the operations
+// that touched the first differing column.
+func contentsKey(sch *Schema, ops []Op, model, db DBState) string {
+	for _, tn := range sch.TableNames {
+		if len(model[tn]) != len(db[tn]) {
+			return "row-set:" + tn
+		}
+		for _, u := range SortedKeys(model[tn]) {
+			dr, ok := db[tn][u]
+			if !ok {
+				return "row-set:" + tn
+			}
+			for _, cn := range sch.Tables[tn].ColNames {
+				if model[tn][u][cn].Eq(dr[cn]) {
+					continue
+				}
+				kind := valueKind(&sch.Tables[tn].Columns[cn].Type)
+				var touch []string
+				for _, op := range ops {
+					if op["table"] != tn {
+						continue
+					}
+					switch op["op"] {
+					case "mutate":
+						muts, _ := op["mutations"].([]any)
+						n := 0
+						for _, mj := range muts {
+							if m, ok := mj.([]any); ok && len(m) == 3 && m[0] == cn {
+								touch = append(touch, fmt.Sprintf("mutate(%v)", m[1]))
+								n++
+							}
+						}
+						if n > 1 {
+							touch = append(touch, "same-column-twice-in-one-op")
+						}
+					case "update", "insert":
+						if row, ok := op["row"].(map[string]any); ok {
+							if _, has := row[cn]; has {
+								touch = append(touch, fmt.Sprint(op["op"]))
+							}
+						}
+					}
+				}
+				if len(touch) == 0 {
+					touch = []string{"untouched"}
+				}
+				return kind + ":" + strings.Join(touch, "+")
+			}
+		}
+	}
+	return "other"
+}
+
+// mentionsUnchangedRow: does a frame mention a row that ends the transaction
+// exactly as it began (in every column, monitored or not)?
+func (s *s1) mentionsUnchangedRow(o *observer, ups []*RawNote, out *TxnOutcome) bool {
+	for _, n := range ups {
+		d, err := DecodeTableUpdates(s.e.Sch, n.Params[len(n.Params)-1], o.spec.Method != "monitor")
+		if err != nil {
+			return true
+		}
+		for _, r := range d.Rows {
+			b, okb := out.Before[r.Table][r.UUID]
+			a, oka := out.After[r.Table][r.UUID]
+			if okb && oka && b.String() == a.String() {
+				return true
+			}
+		}
+	}
+	return false
+}
+
+// condKey names the first condition of an operation that is not a plain
+// scalar / _uuid comparison: function / column kind / empty argument.
+func condKey(sch *Schema, op Op) string {
+	sh := whereShape(sch, op)
+	sh = strings.TrimSuffix(strings.TrimPrefix(sh, "where["), "]")
+	if sh == "" {
+		return "cond:none"
+	}
+	for _, a := range strings.Split(sh, ",") {
+		if strings.HasSuffix(a, "/scalar") || strings.HasSuffix(a, "/uuid") {
+			continue
+		}
+		return "cond:" + a
+	}
+	return "cond:scalar-only"
 }
